@@ -373,6 +373,9 @@ protected:
     template<bool have_pool>
     async<void> worker_coro(std::stop_token state) {
         std::stop_callback stop_notify(state, [&]{
+            //the lock orders the notification after worker's test of the stop state
+            //without it, the notification can fall between the test and the wait and get lost
+            std::lock_guard _(_mx);
             _cond.notify_all();
         });
         std::unique_lock lk(_mx);
